@@ -283,6 +283,33 @@ func streamCli(o *Out, r *rand.Rand, n int, thorough bool) {
 		{"utf8-text", "println(\"h\xc3\xa9llo\", len(\"\xe6\x97\xa5\"))"},
 		{"nul-byte-in-string", "println(len(\"a\x00b\"))"},
 	}
+	// a file argument that cannot be read - missing, the empty string, a directory - is exit 2 with the one ReadFile
+	// diagnostic, whatever follows it on the command line; never the interactive prompt
+	for _, bad := range [][]string{{""}, {"", "a", "b"}, {"."}, {tmp}, {filepath.Join(tmp, "no", "such", "dir", "x.ank")}, {" "}, {"", ""}} {
+		cmd := exec.Command(bin, bad...)
+		cmd.Stdin = strings.NewReader("println(\"ran-from-stdin\")\n")
+		var stdout, stderr bytes.Buffer
+		cmd.Stdout, cmd.Stderr = &stdout, &stderr
+		runErr := cmd.Run()
+		exit := 0
+		if ee, ok := runErr.(*exec.ExitError); ok {
+			exit = ee.ExitCode()
+		} else if runErr != nil {
+			o.Fail(Failure{Oracle: "cli-run", Key: "cli-exec-failed", Input: fmt.Sprint(bad), Detail: runErr.Error()})
+			continue
+		}
+		o.Sum.Evaluations++
+		o.Sum.Hist["unreadable-argument"]++
+		out := stdout.String()
+		if exit != 2 || !strings.HasPrefix(out, "ReadFile error:") || strings.Count(out, "\n") != 1 || strings.Contains(out, "ran-from-stdin") {
+			o.Fail(Failure{Oracle: "cli-unreadable", Key: "cli-unreadable-exit", Input: fmt.Sprintf("anko %q (with a script on standard input)", bad),
+				Detail: fmt.Sprintf("exit=%d stdout=%q stderr=%q; expected exit 2 and exactly the ReadFile diagnostic", exit, out, stderr.String())})
+		}
+	}
+	fileCases = append(fileCases, struct {
+		name   string
+		script string
+	}{"log-package", "log = import(\"log\")\nlog.Println(\"to-the-log\")\nprintln(\"to-stdout\")\nlog.Printf(\"%d-again\", 2)\nprintln(\"end\")"})
 	cwd0, _ := os.Getwd()
 	for k, fc := range fileCases {
 		wd := filepath.Join(tmp, fmt.Sprintf("wd%d", k))
@@ -336,6 +363,14 @@ func streamCli(o *Out, r *rand.Rand, n int, thorough bool) {
 				Detail: fmt.Sprintf("binary exit=%d (diagnostic lines %d, stdout %q), vm.Execute on the same bytes in the same directory: error=%v", exit, diag, stdout.String(), libErr)})
 		} else if body != libOut {
 			o.Fail(Failure{Oracle: "cli-stdout", Key: "cli-file-stdout:" + fc.name, Input: desc, Detail: fmt.Sprintf("binary printed %q, library run printed %q", body, libOut)})
+		}
+		// what a script writes through the bundled log package goes where Go's default logger writes: standard error
+		if fc.name == "log-package" {
+			if !strings.Contains(stderr.String(), "to-the-log") || !strings.Contains(stderr.String(), "2-again") || strings.Contains(stdout.String(), "to-the-log") {
+				o.Fail(Failure{Oracle: "cli-stdout", Key: "cli-file-log-stream", Input: desc, Detail: fmt.Sprintf("stdout %q, stderr %q", stdout.String(), stderr.String())})
+			}
+		} else if stderr.Len() != 0 {
+			o.Fail(Failure{Oracle: "cli-stderr", Key: "cli-stderr-not-empty", Input: desc, Detail: stderr.String()})
 		}
 	}
 }
